@@ -425,7 +425,9 @@ CLAIMS = {
          "re-annotation, go_file incl. eliminate_dead_vars), with NO hypothesis besides the fragment: the go/compile.rs link is "
          "GoCompile.compile_preserves_run, the DCE link is the new Dce.dce_file_preserves (file-level lifting of dce_preserves via a Go.Sem file "
          "congruence and a lock-step pruning theorem; Go.Sem.zero made total, callG given Go's arity rule). core_to_go_preserves is the same "
-         "up to the file before DCE. Tie: the composite model on the "
+         "up to the file before DCE. The back-end conjunct admits trait objects (compile_preserves_run_dyn under the decidable implsOK); the DCE "
+         "contract admits dead field projections of non-pointer static type (inertSyn_sound_field; Go.Sem: nil value of a non-pointer type is stuck). "
+         "On the real programs (quick): InEmitFragment 260 of 534, every compiled file inside the DCE contract. Tie: the composite model on the "
          "REAL Core dump equals the REAL Mono, Lift and ANF dumps for every corpus and generated program; the whole-pipeline model on the REAL Core dump + REAL GlobalGoEnv dump equals the REAL emitted "
          "Go AST; the evidence reports how many real programs lie inside each fragment (InPipeFragment, InLiftAnfFragment, InE2EFragment, "
          "InEmitFragment) and why the others do not.",
